@@ -320,7 +320,15 @@ impl<K, V, A: Allocator> CaoHashMap<K, V, A> {
             //
             let mut i = i; // track the last empty slot
             let mut j = (i + 1) % self.capacity();
+            #[cfg(feature = "verif-hooks")]
+            let mut verif_steps = 0usize;
             while self.hashes()[j] != 0 {
+                #[cfg(feature = "verif-hooks")]
+                crate::verif::probe_step(
+                    &mut verif_steps,
+                    self.capacity(),
+                    "CaoHashMap::remove_with_hint",
+                );
                 // if the jth item is not in its optimal bucket, then move it back to the empty
                 // slot
                 if (self.hashes()[j] % self.capacity() as u64) != j as u64 {
@@ -420,7 +428,11 @@ impl<K, V, A: Allocator> CaoHashMap<K, V, A> {
         let mut ind = (needle.wrapping_mul(2654435769) as usize) % len;
         let hashes = self.hashes();
         let keys = self.keys.as_ptr();
+        #[cfg(feature = "verif-hooks")]
+        let mut verif_steps = 0usize;
         loop {
+            #[cfg(feature = "verif-hooks")]
+            crate::verif::probe_step(&mut verif_steps, len, "CaoHashMap::find_ind");
             unsafe {
                 debug_assert!(ind < len);
                 let h = hashes[ind];
